@@ -9,6 +9,7 @@ own outside HDF5 and reads back exactly the keys it writes):
  R5  File.close reaches h5py close on every normal path; __exit__ closes
  R6  containers are stateless: no method other than __init__ stores to self
 """
+import ast
 from .common import Ctx, surface, api_key, describe_path, ENTITY_CLASSES, CONTAINER_CLASSES
 from nixsa.model import AnalysisError
 from nixsa.px import explore, Config
@@ -63,6 +64,27 @@ def covers(read_locs, wl):
         if rr is not None and rr[0] == "attr" and rr[2] == "group" and rr[1] == r and rk == k:
             return True
     return False
+
+
+def group_readers_rule(M, rep, R8, rname="_create_h5obj"):
+    """the remembered h5py object of the layer's group wrapper is read only by the accessor that refreshes it (shared with C03:
+    membership must agree with length / iteration / lookup, which all go through the accessor)"""
+    hg = M.classes.get("H5Group")
+    # ---- R8b: the remembered h5py object is read only by the accessor that refreshes it: a member that reads `_group`
+    # directly answers "absent" for a group that was created through another handle after this handle was made
+    if hg is not None:
+        readers = []
+        for nm_, f_ in sorted(list(hg.methods.items()) + list(hg.getters.items()) + list(hg.setters.items()), key=lambda kv: kv[0]):
+            if nm_ in ("group", "delete_all", "__init__") or nm_ == rname:
+                continue
+            for n_ in ast.walk(f_.node):
+                if isinstance(n_, ast.Attribute) and n_.attr == "_group" and isinstance(n_.ctx, ast.Load):
+                    readers.append("H5Group.%s (%s:%d)" % (nm_, f_.file, n_.lineno))
+                    break
+        rep.check(R8, "H5Group/_group readers", not readers, "%s read the remembered h5py object directly instead of through the `group` "
+                  "accessor that looks it up again: a handle made before the group existed keeps answering from nothing" % ", ".join(readers),
+                  what="only the accessor, the resolver and delete_all read it")
+
 
 
 def run(M, rep, tier, only=None):
@@ -286,6 +308,8 @@ def run(M, rep, tier, only=None):
                       "looking it up in its parent again: when the group was unlinked and re-created through another handle, "
                       "the write goes to the orphaned group and is lost on reopening" % name,
                       site=bad[1].site if bad else None, detail=describe_path(bad[0]) if bad else None)
+
+    group_readers_rule(M, rep, R8, rname)
 
     # ---- R9: a container group is emptied item by item, never unlinked as a whole (other handles hold the group object)
     R9 = rep.rule("C02.R9", "container groups are never unlinked as a whole", floor=1,
